@@ -52,7 +52,21 @@ func genC01(r *Rand, tier string, i int) *h.Scenario {
 		p.MaxOps = 20
 	}
 	sc := GenBase(r, &p)
-	// "or the container is cancelled": a render error cancels it; Wait must return all the same
+	// "or the container is cancelled": by the client ...
+	if r.Bool(0.12) {
+		op := h.Op{K: []int{h.OpCancel, h.OpShutdown}[r.Intn(2)]}
+		who := r.Intn(len(sc.Clients) + 1)
+		if who == len(sc.Clients) {
+			pos := r.Intn(len(sc.Main) + 1)
+			sc.Main = append(sc.Main[:pos:pos], append([]h.Op{op}, sc.Main[pos:]...)...)
+		} else {
+			ops := sc.Clients[who]
+			pos := r.Intn(len(ops) + 1)
+			sc.Clients[who] = append(ops[:pos:pos], append([]h.Op{op}, ops[pos:]...)...)
+		}
+	}
+	addWatchers(r, sc)
+	// ... or by a render error; Wait must return all the same
 	if r.Bool(0.1) && len(sc.Bars) > 0 {
 		site := []int{h.FaultFill, h.FaultExt, h.FaultOutWrite, h.FaultOutShort}[r.Intn(4)]
 		sc.Faults = []h.Fault{{Site: site, Bar: r.Intn(len(sc.Bars)), K: r.Range(1, 5)}}
@@ -146,6 +160,14 @@ func genC02(r *Rand, tier string, i int) *h.Scenario {
 		if site == h.FaultOutWrite {
 			sc.Faults[0].Bar = 0
 		}
+	}
+	// a late Add (of a bar no client ever created) returns (nil, ErrDone)
+	if r.Bool(0.6) {
+		sc.Bars = append(sc.Bars, h.BarSpec{QueueAfter: -1, Total: 7, Filler: h.FillProbe})
+		sc.Post = append(sc.Post, h.Op{K: h.OpAdd, Bar: len(sc.Bars) - 1})
+	}
+	if len(sc.Initial) > 0 && r.Bool(0.3) {
+		sc.Post = append(sc.Post, h.Op{K: h.OpAvgAdjust, Bar: sc.Initial[r.Intn(len(sc.Initial))], N: 12345})
 	}
 	// a proxy requested after the container is done is nil
 	if len(sc.Initial) > 0 && r.Bool(0.5) {
@@ -250,7 +272,7 @@ func trimStack(s string) string {
 
 func genC16(r *Rand, tier string, i int) *h.Scenario {
 	p := DefaultProfile("C16")
-	p.PQueueAfter = 0
+	p.PQueueAfter = 0.1
 	p.PEwma = 0.3
 	p.PListener = 0.3
 	p.PNotifier = 0.4
